@@ -6,7 +6,7 @@ CONSTANTS
   MaxTip = 4
   Mat = 2
   Answers = {"accepted", "inmempool", "rejected", "notifyfail1", "notifyfail2", "badlabel"}
-  Acts = {"Receive", "Mine", "Lock", "Lease", "Send", "SendExplicit", "FundOwn", "DryRun", "Restart", "RestartRej"}
+  Acts = {"Receive", "Mine", "Lock", "Lease", "Send", "SendExplicit", "SendSelf", "FundOwn", "DryRun", "Restart", "RestartRej"}
   LockCoins = {1, 2, 3, 5, 7, 9, 10}
   MaxHist = 28
   FullHist = TRUE
